@@ -46,12 +46,13 @@ type HereDoc struct {
 }
 
 type Op struct {
-	Op    string   `json:"op"` // set unset get walk args opts expand eval
-	Name  string   `json:"name,omitempty"`
-	Value string   `json:"value,omitempty"`
-	Args  []string `json:"args,omitempty"`
-	Opts  uint     `json:"opts,omitempty"`
-	Mode  uint     `json:"mode,omitempty"`
+	Op      string   `json:"op"` // set unset get walk args opts expand eval
+	Name    string   `json:"name,omitempty"`
+	Value   string   `json:"value,omitempty"`
+	Args    []string `json:"args,omitempty"`
+	Opts    uint     `json:"opts,omitempty"`
+	Mode    uint     `json:"mode,omitempty"`
+	Observe int      `json:"observe,omitempty"` // C20: how much is observed after this step: 0 nothing, 1 the name touched, 2 everything
 }
 
 func (c *Case) Key() string {
